@@ -1024,11 +1024,15 @@ def r78(e: Engine, rep: Report, rule: str = 'R7.8'):
                    isinstance(x.ctx, ast.Store) for x in ast.walk(m.node)):
             continue
         ctx = Ctx(m, SERVER)
-        g = e.build(ctx, raises=lambda b, n, r: set())
+        g = e.build(ctx, raises=lambda b, n, r: set(),
+                    inline=e.inline_same_self(
+                        deny=['_call_custom_handler', '_check_close_code',
+                              '_encrypt_session', '_get_message_data']),
+                    max_depth=3)
         fx = e.facts(g)
         for n in g.of_kind('stmt'):
             a = n.ast
-            if not isinstance(a, ast.Assign):
+            if not isinstance(a, ast.Assign) or n.frame is not g.entry.frame:
                 continue
             for t in a.targets:
                 if not (isinstance(t, ast.Attribute) and t.attr in FLAGS and
@@ -1060,9 +1064,16 @@ def r78(e: Engine, rep: Report, rule: str = 'R7.8'):
                 rep.evaluations += 1
                 st = fx.at(n) or frozenset()
                 try:
-                    truthy = holds(st, (True, canon(v, n.frame)))
+                    key = canon(v, n.frame)
+                    truthy = holds(st, (True, key))
                 except Exception:
-                    truthy = False
+                    key, truthy = None, False
+                if not truthy and not boolean(v) and key is not None:
+                    # established on every path, but through a helper that
+                    # hands back a refusal / None (must-facts do not carry
+                    # that across the merge of its returns)
+                    truthy = common.unguarded_path(
+                        e, g, n, [(True, key)]) is None
                 rep.check(boolean(v) or truthy, rule, m.qname,
                           'flag self.%s is set to a value that is truthy '
                           'whenever the command was accepted' % t.attr,
